@@ -27,7 +27,7 @@ from markupsafe import Markup
 
 sys.path.insert(0, os.path.join(lib.ROOT, "gen"))
 
-RULE = ("K-rt: for each collection filter, every list of length <= L over 3 keys in several item shapes (plain "
+RULE = ("K-rt: for each collection filter, every list of length <= L over 3 keys (quick tier: every 2nd list of the longest length) in several item shapes (plain "
         "strings a/A/b, ints 0/1/2, dicts {k,i}, dicts with a missing or nested attribute, [key, index] pairs) x the "
         "filter's argument grid (slice counts -1..7 x fill, case sensitivity, reverse, attribute paths incl. dotted "
         "and integer parts, default, tests, start values), plus random lists of length 7..40; each case is run "
@@ -482,8 +482,8 @@ class Runner:
 def modes_for(case, value, quick=False):
     ms = [("sync", "list")]
     is_list = isinstance(value, list)
-    # quick tier: lists of length >= 4 skip the plain-generator modes (kept: list + async generator)
-    slim = quick and is_list and len(value) >= 4
+    # quick tier: lists of length >= 3 skip the plain-generator modes (kept: list + async generator)
+    slim = quick and is_list and len(value) >= 3
     if is_list and case["filter"] not in NEEDS_SEQUENCE and not slim:
         ms.append(("sync", "gen"))
     ms.append(("async", "list"))
@@ -585,7 +585,10 @@ def build_cases(ctx):
     L = ctx.size(5, 6)
     cases = []
     for n in range(0, L + 1):
-        for ks in itertools.product(KEYS, repeat=n):
+        for idx, ks in enumerate(itertools.product(KEYS, repeat=n)):
+            # quick tier: the longest length is sampled (every 2nd list, light grid); thorough: everything
+            if n == L and ctx.tier != "thorough" and idx % 2:
+                continue
             cases += grid(shapes(ks), light=(n == L and ctx.tier != "thorough"))
     cases += dict_cases()
     for _ in range(ctx.size(70, 1500)):
@@ -613,7 +616,7 @@ def regenerated(ctx):
         ctx.broken.append(f"translator gen/filt_facts.py failed on filters.py: {e}")
         return True
     text += OBLIGATIONS
-    ctx.coq_obligation("FiltGen_c22", text, n_obligations=2)
+    ctx.pending_parts.append(("Footprint", text, 2))
     ctx.extra["footprint_rows"] = [f"{f}:{ln} {w} param_rooted={p}" for f, ln, w, p in rows]
     ctx.extra["sum_aug"] = aug
     return aug
@@ -652,10 +655,21 @@ def source_equations(ctx, which):
         ctx.broken.append(f"translator gen/filt_translate.py: the source of {which} left the translatable vocabulary "
                           f"or the shape the equation is stated for: {e}")
         return False
-    ok, out = ctx.coq_obligation(name, vtext, n_obligations=3 if which != "truncate" else 1)
+    ctx.pending_parts.append((which.capitalize(), vtext, 3 if which != "truncate" else 1))
+    return True
+
+
+def flush_obligations(ctx, name):
+    """compile everything regenerated for this run as ONE file (one module per part)"""
+    parts = getattr(ctx, "pending_parts", [])
+    if not parts:
+        return
+    text = fc.merge_modules([(m, t) for m, t, _ in parts])
+    ok, out = ctx.coq_obligation(name, text, n_obligations=sum(n for _, _, n in parts))
     if ok:
-        ctx.trusted.append(f"{name} (source term = model function, all inputs): " + " ".join(out.split()))
-    return ok
+        ctx.trusted.append(f"{name} (regenerated facts and source term = model function equations: "
+                           + ", ".join(m for m, _, _ in parts) + "): " + " ".join(out.split()))
+    ctx.pending_parts = []
 
 
 # ------------------------------------------------------------------ entry-point / spelling / value-kind / environment / history matrix
@@ -717,6 +731,7 @@ def matrix(ctx, jinja2):
         keysets += [["a", "a", "A"], ["c", "b", "a", "C"]]
     containers = [("list", list), ("tuple", tuple), ("iterator", iter), ("generator", lambda xs: (x for x in xs)),
                   ("iter_only", IterOnly), ("getitem_only", GetItemOnly)]
+    by_list = {}
     try:
         for ks in keysets:
             item_kinds = {
@@ -732,7 +747,17 @@ def matrix(ctx, jinja2):
                         continue
                     fv = (lambda items=items, C=C: C(list(items)))
                     v = fv()
-                    A = lambda f, a=(), n=(), **kw: mx.apply("C22", f, v, a, n, fresh_value=fv, **kw)   # noqa: E731
+                    def A(f, a=(), n=(), cname=cname, fv=fv, v=v, ik=ik, ks=ks, **kw):
+                        res = mx.apply("C22", f, v, a, n, fresh_value=fv, **kw)
+                        # the result depends only on the sequence of items, not on the container kind
+                        mine = res.get("sync/call_filter/positional") or res.get("sync/call_filter/keyword")
+                        key = (tuple(ks), ik, f, repr(a))
+                        if cname == "list":
+                            by_list[key] = mine
+                        elif key in by_list and not mine.startswith("ERR") and not by_list[key].startswith("ERR") and mine != by_list[key]:
+                            ctx.reject({"filter": f, "args": repr(a), "container": cname, "items": repr(fv() if cname in ("list", "tuple") else list(fv()))[:120]},
+                                       f"{cname} input gives {mine[:60]}, the same items in a list give {by_list[key][:60]}", None)
+                        return res
                     for a in ((2,), (2, "F"), (3, None)):
                         A("batch", a, ("linecount", "fill_with"))
                         A("slice", a, ("slices", "fill_with"))
@@ -799,10 +824,19 @@ def run(ctx):
         "keys are ints or strs (None / Undefined / mixed keys only where every comparison order raises the same exception); containers as keys are outside the model",
         "itertools.groupby groups adjacent items whose keys compare equal to the first key of the group",
     ]
-    ctx.proof("C22")
+    import time
+    t0 = time.time()
+    ctx.pending_parts = []
     aug = regenerated(ctx)
     source_equations(ctx, "slice")
     source_equations(ctx, "batch")
+    ctx.extra["phase_seconds"] = {}
+
+    def coq_part():
+        ctx.proof("C22")
+        flush_obligations(ctx, "Gen_filt_c22")
+        ctx.extra["phase_seconds"]["coq (in parallel)"] = round(time.time() - t0, 1)
+    bg = fc.Background(coq_part)
     rn = Runner(jinja2)
     cases = build_cases(ctx)
     lines = []
@@ -817,7 +851,11 @@ def run(ctx):
             judge(ctx, rn, case, value, out[2 * i], out[2 * i + 1], aug, with_template=(i % step == 0))
     finally:
         rn.ar.close()
+    ctx.extra["phase_seconds"]["model_tie"] = round(time.time() - t0, 1)
+    t1 = time.time()
     matrix(ctx, jinja2)
+    ctx.extra["phase_seconds"]["matrix"] = round(time.time() - t1, 1)
+    bg.join()
 
 
 def replay(ctx, data):
